@@ -104,6 +104,8 @@ impl World {
             (3, 0, alex.to_vec(), None),
             (0, 0, vec![("name", "Alexa"), ("age", "31"), ("sex", "female"), ("height", "168")], None),
             (0, 0, vec![("name", "Zoë ✓"), ("age", "-5"), ("sex", ""), ("height", "-2147483648")], None),
+            // 8: a second revocable credential of holder 0 from the same definition and registry as credential 1
+            (1, 0, vec![("name", "Alexa"), ("age", "31"), ("sex", "female"), ("height", "168")], Some(3)),
         ];
         let creds: Vec<Held> = plan
             .iter()
